@@ -130,6 +130,28 @@ def tlc_strings(ctx):
     return cases
 
 
+_SEGS = re.compile(r'^<<"SEGS", "(.*)">>\s*$')
+
+
+def compile_segments(ctx, events):
+    """Compile pass of Draw_Trace: event index (0-based) -> {segs, pos} as computed by the specification."""
+    tf = ctx.path('compile.json')
+    with open(tf, 'w') as f:
+        json.dump({'header': {'compile': True}, 'events': events}, f)
+    r = ctx.tlc('Draw_Trace', 'Draw_Trace.cfg', env={'TRACE_FILE': tf, 'OUT_FILE': tf + '.out'}, workers=1, tag='compile')
+    if not r['ok']:
+        raise core.MachineryError('compile pass of Draw_Trace failed: %s\n%s' % (r['error'], r['out'][-2000:]))
+    ctx.cov['states'] += r['distinct']
+    ctx.cov['transitions'] += r['generated']
+    model = {}
+    for line in r['out'].splitlines():
+        m = _SEGS.match(line)
+        if m:
+            d = json.loads(m.group(1).encode().decode('unicode_escape'))
+            model[d['i'] - 1] = d
+    return model
+
+
 class Tests(object):
     """Builds the event list of one mode: reset, then per test setpos + draw."""
 
@@ -201,7 +223,10 @@ class Tests(object):
                 sx, sy = t['start']
                 if t['pre']:
                     g.ex(':'.join(t['pre']))
-                mark = ':PSET STEP(0,0),%d' % self.marker if self.marker is not None else ''
+                # (no marker for the out-of-range colour tests: a clipped attribute may coincide with the marker attribute)
+                use_marker = self.marker is not None and not t['oor']
+                t['use_marker'] = use_marker
+                mark = ':PSET STEP(0,0),%d' % self.marker if use_marker else ''
                 st = 'PSET (%d,%d),%d:DRAW "%s":P0=POINT(0):P1=POINT(1)%s' % (sx, sy, self.events[t['ev'] - 1]['col'], t['text'], mark)
                 st = st.replace('+""', '').replace('""+', '')
                 r = g.ex(st)
@@ -245,13 +270,13 @@ class Tests(object):
                 diff, marks = [], []
                 for y in range(y0, y1 + 1):
                     ra, rb = a_img[y * W + x0:y * W + x1 + 1], b_img[y * W + x0:y * W + x1 + 1]
-                    if self.marker is not None and self.marker in ra:
+                    if t.get('use_marker') and self.marker in ra:
                         marks += [[x0 + i, y] for i, v in enumerate(ra) if v == self.marker]
                     if ra != rb:
                         diff += [[x0 + i, y] for i in range(len(ra)) if ra[i] != rb[i]]
                 e['diff'] = diff[:30]
                 e['ndiff'] = len(diff)
-                if self.marker is not None:
+                if t.get('use_marker'):
                     e['marks'] = marks[:30]
 
     def close(self):
@@ -342,9 +367,7 @@ def run(ctx):
     for T in all_tests:
         offs.append(len(allev))
         allev += T.events
-    comp = ctx.validate('Draw_Trace', [{k: v for k, v in e.items() if k in ('op', 'pos', 'scale', 'col', 'x', 'y', 'cmds')} for e in allev],
-                        header={'compile': True}, name='compile')
-    model = {i - 1: payload for (i, payload) in comp}
+    model = compile_segments(ctx, [{k: v for k, v in e.items() if k in ('op', 'pos', 'scale', 'col', 'x', 'y', 'cmds')} for e in allev])
     t1 = time.time()
     for T, off in zip(all_tests, offs):
         T.execute({i - off: m for i, m in model.items() if off <= i < off + len(T.events)})
